@@ -82,6 +82,13 @@ class Reader:
             return self.kind
         # an Option/Result produced by a private helper: under the assumed kinds the helper may have one answer only
         x = strip_refs(pe)
+        if x[0] == "call" and x[1] and x[1].get("path", "").endswith("as std::ops::Try>::branch") and x[2]:
+            # `helper(..)?`: Continue / Break as the helper answers Ok / Err under the assumed kinds
+            inner = strip_refs(x[2][0])
+            if inner[0] == "call" and inner[1] and inner[1].get("local"):
+                v = self.known(inner, "std::result::Result")
+                return {"Ok": "Continue", "Some": "Continue", "Err": "Break", "None": "Break"}.get(v)
+            return None
         if x[0] == "call" and x[1] and x[1].get("local") and adt in ("std::option::Option", "std::result::Result"):
             res = self.call_results(x, x[2])
             if res:
